@@ -163,6 +163,8 @@ pub fn gen_cfg(rng: &mut Rng, prof: &Profile) -> WorldCfg {
     // ceiling (after normalisation to the pool's highest precision) can be deposited
     // (pool profile only: the farm-side monitors' own arithmetic is written for amounts below 1e30)
     let whale = !small && prof.name == "pool" && rng.chance(1, 12);
+    // harness stress switch (not used by any registered command): every pool-profile world a whale world
+    let whale = whale || (prof.name == "pool" && std::env::var("VERIF_FORCE_WHALE").is_ok());
     let init_balance: Vec<u128> = denoms
         .iter()
         .map(|(_, d)| {
